@@ -4,7 +4,7 @@ from . import common as C
 
 NS = "ns"
 KIND = {"ing": "KIng", "vs": "KVS", "vsr": "KVSR", "ts": "KTS"}
-FAILKIND = {1: "duplicate-address", 2: "named-target-port-first-pod-only", 3: "vsr-cluster-ip-unbracketed",
+FAILKIND = {7: "api-push-differs-from-file", 1: "duplicate-address", 2: "named-target-port-first-pod-only", 3: "vsr-cluster-ip-unbracketed",
             4: "unnamed-service-port-matches-any-number", 5: "externalname-named-backend-port-zero",
             6: "server-lines", 9: "other"}
 
@@ -58,8 +58,14 @@ def is_dyn(c):
     return c.get("fam") == "dyn"
 
 
+def is_res(c):
+    return c.get("fam") == "res"
+
+
 def new_cluster(c):
-    """the cluster a dyn case ends in"""
+    """the cluster a dyn / res case ends in"""
+    if not c.get("dyn"):
+        return c
     return {"svcs": c["dyn"]["svcs2"], "slices": c["dyn"]["slices2"], "pods": c.get("pods")}
 
 
@@ -86,6 +92,14 @@ def cq_fixes(fx):
 def rows_of(c):
     """one Coq row per backend of the case; row id = case id * 100 + backend index"""
     out = []
+    if is_res(c):
+        for i, (it, o) in enumerate(zip(c["res"]["items"], c["obs"]["items"])):
+            out.append("res_item_case %d fx %s false cl_%d %s %s %s %s %s %s %s" % (
+                c["id"] * 100 + i, C.cq_bool(c["plus"]), c["id"], C.cq_str(it["ns"]), cq_backend(it["b"]),
+                C.cq_list([C.cq_str(x) for x in o.get("entry") or []]), C.cq_bool(o["ext_svc"]),
+                C.cq_list([C.cq_str(x) for x in o.get("servers") or []]), C.cq_bool(o["was_pushed"]),
+                C.cq_list([C.cq_str(x) for x in o.get("pushed") or []])))
+        return out
     if is_dyn(c):
         return ["dyn_case %d fx %s false cl_%d %s %s %s" % (
             c["id"] * 100, C.cq_bool(c["plus"]), c["id"], C.cq_str(NS), cq_backend(c["backends"][0]),
@@ -100,6 +114,9 @@ def rows_of(c):
 
 
 def usable(c):
+    if is_res(c):
+        o = c.get("obs")
+        return isinstance(o, dict) and not o.get("error") and not o.get("panic") and len(o.get("items") or []) == len(c["res"]["items"])
     if is_dyn(c):
         o = c.get("obs")
         return isinstance(o, dict) and not o.get("error") and not o.get("panic")
@@ -114,7 +131,7 @@ def evaluate(run, cases, tag, fx):
     body += "Definition fx : Fixes := %s.\n" % cq_fixes(fx)
     rows = []
     for c in cases:
-        body += "Definition cl_%d : Cluster :=\n  %s.\n" % (c["id"], cq_cluster(new_cluster(c) if is_dyn(c) else c))
+        body += "Definition cl_%d : Cluster :=\n  %s.\n" % (c["id"], cq_cluster(new_cluster(c) if (is_dyn(c) or is_res(c)) else c))
         rows += rows_of(c)
     body += "Definition results : list (list Z) := Eval vm_compute in\n  [" + ";\n   ".join(rows) + "].\nPrint results.\n"
     path = os.path.join(C.WORK, "cases", "C14_%s.v" % tag)
@@ -143,6 +160,9 @@ def judge(run, cases, res):
         if is_dyn(c):
             judge_dyn(run, c, agree, spec, nontrivial, tag, kind)
             continue
+        if is_res(c):
+            judge_res(run, c, rid % 100, agree, spec, nontrivial, tag, kind)
+            continue
         b, o = c["backends"][rid % 100], c["obs"][rid % 100]
         one = dict(c, backends=[b], obs=[o])
         run.count_case(canon_backend(c, b), bool(nontrivial))
@@ -168,6 +188,39 @@ def judge(run, cases, res):
                         "model and implementation disagree (case %d backend %d %s) but the specification holds on it: obs=%s"
                         % (c["id"], rid % 100, b["kind"], json.dumps(o)[:400]),
                         theorem="correspondence Endpoints.Model ~ internal/k8s/controller.go endpoint resolution", found_input=False)
+
+
+def judge_res(run, c, i, agree, spec, nontrivial, tag, kind):
+    it, o, rk = c["res"]["items"][i], c["obs"]["items"][i], c["res"]["kind"]
+    b = it["b"]
+    fin = new_cluster(c)
+    run.count_case({"fam": "res", "plus": c["plus"], "svcs": fin["svcs"], "slices": fin["slices"], "pods": c["pods"], "res": c["res"], "item": i},
+                   bool(nontrivial))
+    run.cov["traces_validated_against_impl"] += 1
+    bt = run.cov.setdefault("by_branch", {})
+    bt[str(tag)] = bt.get(str(tag), 0) + 1
+    rs = run.cov.setdefault("res_by_kind", {})
+    key = "%s:%s:%d-backends" % (rk, "plus" if c["plus"] else "oss", len(c["res"]["items"]))
+    rs[key] = rs.get(key, 0) + 1
+    where = "res case %d (%s, %d backends) backend %d [%s in namespace %s -> %s:%s]" % (
+        c["id"], rk, len(c["res"]["items"]), i, it["owner"], it["ns"], b["svc"], b["port_name"] or b["port_num"])
+    if not o.get("has_entry") or not o.get("upstream"):
+        run.failing({"kind": "backend-disappeared", "backend": b["kind"], "fam": "res"}, [c],
+                    "%s has no Endpoints entry / no upstream block (has_entry=%s upstream=%s)" % (where, o.get("has_entry"), o.get("upstream")),
+                    theorem="C14_empty_is_error_backend")
+    elif not spec:
+        sig = {"kind": FAILKIND.get(kind, "other")}
+        if kind in (6, 7, 9):
+            sig["backend"] = b["kind"]
+            sig["fam"] = "res"
+        run.failing(sig, [c], "%s: C14 fails on the implementation's own result (%s): entry=%s file servers=%s pushed=%s%s"
+                    % (where, FAILKIND.get(kind, "other"), json.dumps(o["entry"])[:160], json.dumps(o["servers"])[:160],
+                       json.dumps(o["pushed"])[:160], "" if o["was_pushed"] else " (no API call)"),
+                    theorem="Endpoints.Cases.res_item_case / C14_ingress_no_leak, C14_vs_no_leak, C14_push_is_file")
+    elif not agree:
+        run.failing({"kind": "correspondence", "backend": b["kind"], "fam": "res"}, [c],
+                    "%s: model and implementation disagree but the specification holds: obs=%s" % (where, json.dumps(o)[:400]),
+                    theorem="correspondence Endpoints.Model (resource level) ~ createXEx + Configurator", found_input=False)
 
 
 def judge_dyn(run, c, agree, spec, nontrivial, tag, kind):
@@ -218,7 +271,7 @@ TRUSTED = [
 
 
 def check(run):
-    n = 920 if run.tier == "quick" else 20000
+    n = 840 if run.tier == "quick" else 18000
     run.proof_obligations()
     binary = C.go_build("c14")
     out = os.path.join(C.WORK, "cases", "c14_%s.jsonl" % run.tier)
@@ -232,7 +285,7 @@ def check(run):
     for k in range(0, len(cases), shard):
         part = cases[k:k + shard]
         judge(run, part, evaluate(run, part, "%s_%d" % (run.tier, k // shard), fx))
-    for c in cases[:1] + [x for x in cases if x["class"] == "gen"][:1] + [x for x in cases if x["class"] == "dyn"][:2]:
+    for c in cases[:1] + [x for x in cases if x["class"] == "res"][:1] + [x for x in cases if x["class"] == "dyn"][:1]:
         run.sample(c)
     run.cov["rule"] = ("a corpus of 9 fixed clusters (witnesses of the *_refuted theorems and the corner cases named in the property) followed by generated "
                        "clusters: 1-3 services (numeric / named / defaulted target ports, 1-3 ports, unnamed single port, ExternalName, selector-less, IPv4 / "
@@ -245,7 +298,14 @@ def check(run):
                        "cluster: the model is compared with getEndpointsForIngressBackend / getEndpointsForSubselector, with the Endpoints entry of the extended "
                        "resource and with the server entries of the generated upstream; the specification is evaluated on the entry and the server entries. "
                        "A case is distinct by cluster + backend; a case is non-trivial when its Endpoints entry is not empty.  "
-                       "Dynamic family (n/4 cases + the seeded scenario for each resource kind): a controller built by NewLoadBalancerController over a real "
+                       "Resource family (n/3 cases + the shapes of two seeded changes): ONE resource with 2-5 backends -- an Ingress (default backend + paths on "
+                       "two hosts), a master/minion pair, a VirtualServer with VirtualServerRoutes in its own and in another namespace (same-named Services "
+                       "with other pods in both namespaces), a TransportServer -- in which any subset of the Services is missing / without ready endpoints / "
+                       "ExternalName / lacks the port, in any order; built by the real createXEx, written by the real Configurator, then the cluster changes and "
+                       "the real UpdateEndpoints / UpdateEndpointsMergeableIngress / UpdateEndpointsForVirtualServers / UpdateEndpointsForTransportServers run "
+                       "over a recording manager; per backend: its Endpoints entry, the server lines of ITS upstream block in the file and the servers pushed for "
+                       "ITS upstream through UpdateServersInPlus / UpdateStreamServersInPlus must be the single-backend resolution in the owner's namespace "
+                       "(res_by_kind counts backends per resource kind).  Dynamic family (n/4 cases + the seeded scenario for each resource kind): a controller built by NewLoadBalancerController over a real "
                        "Configurator (production templates, recording fake manager); the resource is added and synced, then the cluster changes (targetPort "
                        "of the Service + slice ports rewritten in place; one slice port number; readiness; addresses; the service-name label; slice "
                        "deleted / added; service port number) and the change is delivered as watch events to the REAL createServiceHandlers / "
@@ -278,6 +338,10 @@ def replay(run, path):
     byid = {c["id"]: c for c in cases}
     for r in res:
         c = byid[r[0] // 100]
+        if is_res(c):
+            print("replay res case %d backend %d: impl obs=%s  model-agrees=%d spec=%d failure-kind=%s" % (
+                r[0] // 100, r[0] % 100, json.dumps(c["obs"]["items"][r[0] % 100])[:600], r[1], r[2], FAILKIND.get(r[5], "none")))
+            continue
         if is_dyn(c):
             print("replay dyn case %d: impl obs=%s  model-agrees=%d spec=%d failure-kind=%s" % (
                 r[0] // 100, json.dumps(c["obs"])[:600], r[1], r[2], FAILKIND.get(r[5], "none")))
